@@ -24,19 +24,19 @@ const (
 
 // Prog is the loaded program.
 type Prog struct {
-	gfuncs map[*ssa.Global][]*ssa.Function
-	Dir     string
+	gfuncs    map[*ssa.Global][]*ssa.Function
+	Dir       string
 	ModPrefix string
-	Fset    *token.FileSet
-	Mod     []*packages.Package          // module packages with Go files, sorted by path
-	All     map[string]*packages.Package // whole import closure
-	SSA     *ssa.Program
-	Root    *ssa.Package
-	Field   *ssa.Package
-	Scalar  *ssa.Package
-	ModSSA  []*ssa.Package
-	NFuncs  int
-	NInstrs int
+	Fset      *token.FileSet
+	Mod       []*packages.Package          // module packages with Go files, sorted by path
+	All       map[string]*packages.Package // whole import closure
+	SSA       *ssa.Program
+	Root      *ssa.Package
+	Field     *ssa.Package
+	Scalar    *ssa.Package
+	ModSSA    []*ssa.Package
+	NFuncs    int
+	NInstrs   int
 }
 
 // Env returns the environment used for every `go list` the loader spawns.
